@@ -1,17 +1,19 @@
 (* C28 — Addresses and identifiers have lossless, network-bound text forms. Property theorems only.
    Models: RV.Model.C28_Bech32 (bech32 0.9.1 decode/encode as used by AddressBech32Encoder/Decoder,
    HRP = generated entity prefix ++ network suffix), RV.Model.C28_LocalId (NonFungibleLocalId
-   FromStr/Display).
-   NOT proved here (validated by correspondence + the harness oracle only, see spec/C28.json):
-   C28_bits_roundtrip, C28_address_roundtrip, C28_localid_text_roundtrip. *)
+   FromStr/Display), RV.Model.C28_GlobalId (NonFungibleGlobalId canonical string).
+   `byte_list l` = every element < 256.  A network is represented by its hrp_suffix (the only part
+   of NetworkDefinition the code uses for text forms). *)
 From Coq Require Import List NArith Bool.
 Import ListNotations.
-Require Import RV.Gen.C28_entity_types RV.Model.C28_Bech32 RV.Model.C28_LocalId.
-Require Import RV.Proof.C28_Address RV.Proof.C28_Checksum RV.Proof.C28_LocalId.
+Require Import RV.Gen.C28_entity_types RV.Model.C28_Bech32 RV.Model.C28_LocalId RV.Model.C28_GlobalId.
+Require Import RV.Proof.C28_Address RV.Proof.C28_Checksum RV.Proof.C28_Bits RV.Proof.C28_Roundtrip
+  RV.Proof.C28_LocalId RV.Proof.C28_LocalIdRoundtrip RV.Proof.C28_GlobalId.
 Open Scope N_scope.
 
-(* the generated table: 22 entity types, every prefix is non-empty lower-case ASCII/underscore
-   (so HRPs of lower-case suffixes pass check_hrp unchanged) and keys are distinct bytes *)
+(* --- generated tables ---------------------------------------------------------------------------- *)
+
+(* 22 entity types, distinct bytes, every prefix non-empty lower-case ASCII/underscore *)
 Theorem C28_entity_table_wellformed :
   length entity_table = 22%nat
   /\ forallb (fun e => (fst e <? 256) && negb (Nat.eqb (length (snd e)) 0)
@@ -23,6 +25,20 @@ Proof.
   repeat (constructor; [cbn; intuition discriminate|]). constructor.
 Qed.
 
+(* every NetworkDefinition the code constructs (simulator, localnet, adapanet, nebunet, kisharnet,
+   ansharnet, zabanet, stokenet, mainnet): the suffix has no ':' and, with every entity prefix,
+   gives an HRP the encoder accepts unchanged.  A suffix containing ':' (or upper case, or
+   characters outside 33..126) needs a hand-made NetworkDefinition (pub fields / SBOR decode). *)
+Theorem C28_known_networks_wellformed :
+  forallb (fun suf =>
+    forallb (fun c => negb (c =? 58)) suf
+    && forallb (fun e => match check_hrp (snd e ++ suf) with Ok CLower => true | _ => false end)
+         entity_table)
+    known_suffixes = true.
+Proof. vm_compute. reflexivity. Qed.
+
+(* --- Bech32m ---------------------------------------------------------------------------------------- *)
+
 (* the six checksum symbols written by the encoder make the whole string verify as Bech32m:
    for every HRP and every data part (GF(2)-linearity of polymod_step) *)
 Theorem C28_checksum_verifies : forall hrp data,
@@ -30,6 +46,25 @@ Theorem C28_checksum_verifies : forall hrp data,
     (data ++ checksum_of (polymod_from (polymod_from 1 (hrp_expand hrp)) data) BECH32M_CONST)
   = Some true.
 Proof. exact checksum_verifies. Qed.
+
+(* 8 -> 5 -> 8 regrouping (ToBase32 with zero padding, then convert_bits 5 8 pad=false with its
+   padding checks) is the identity on every byte list; the 5-bit values are < 32 *)
+Theorem C28_bits_roundtrip : forall bytes, byte_list bytes ->
+  from_base32 (to_base32 bytes) = Ok bytes /\ Forall (fun v => v < 32) (to_base32 bytes).
+Proof. intros b H. split; [apply bits_roundtrip|apply to_base32_u5]; exact H. Qed.
+
+(* whatever the encoder outputs decodes, on the same network, to the same entity type and bytes:
+   every data length, every suffix (the hypothesis `encode_address .. = Ok s` is exactly "the
+   encoder accepts this address on this network", characterised by C28_encode_accepts) *)
+Theorem C28_address_roundtrip : forall suffix data s, byte_list data ->
+  encode_address suffix data = Ok s ->
+  exists b tl, data = b :: tl /\ decode_address suffix s = Ok (b, data).
+Proof. exact address_roundtrip. Qed.
+
+Theorem C28_encode_accepts : forall suffix b tl p c, byte_list (b :: tl) ->
+  entity_prefix b = Some p -> check_hrp (p ++ suffix) = Ok c ->
+  exists s, encode_address suffix (b :: tl) = Ok s.
+Proof. exact encode_succeeds. Qed.
 
 (* network binding: a string accepted by the decoder of one network is rejected (InvalidHrp) by the
    decoder of every network with a different hrp_suffix — for EVERY string, not only encoder output *)
@@ -51,13 +86,37 @@ Proof. exact entity_mismatch_rejected. Qed.
 Theorem C28_parse_total_address : forall suffix s, decode_address suffix s <> Panic.
 Proof. exact decode_no_panic. Qed.
 
+(* --- local ids ------------------------------------------------------------------------------------ *)
+
 (* local id parsing returns Ok or Err for every valid UTF-8 string (every &str) *)
 Theorem C28_parse_total_localid : forall s, utf8_valid s = true -> from_str s <> Panic.
 Proof. exact localid_parse_total. Qed.
 
+(* parse (print id) = id for the four kinds (string charset/length, canonical decimal u64, 1..64
+   bytes as lower-case hex, 32-byte RUID in 16-16-16-16 hex groups) *)
+Theorem C28_localid_text_roundtrip : forall id, valid_id id -> from_str (print id) = Ok id.
+Proof. exact localid_text_roundtrip. Qed.
+
 (* an accepted integer id was written in canonical decimal: it is exactly what Display prints *)
 Theorem C28_integer_canonical : forall s n, from_str s = Ok (LInteger n) -> s = print (LInteger n).
 Proof. exact integer_canonical. Qed.
+
+(* --- global ids ------------------------------------------------------------------------------------ *)
+
+(* "address:localid" round trip for every resource node id the encoder accepts, on every network
+   whose hrp_suffix has no ':' (hypothesis; see C28_known_networks_wellformed and the corner below) *)
+Theorem C28_globalid_text_roundtrip : forall suffix data id a,
+  byte_list data -> is_resource_node data = true -> valid_id id -> ~ In 58 suffix ->
+  encode_address suffix data = Ok a ->
+  global_print suffix data id = Ok (a ++ [58] ++ print id)
+  /\ global_from_str suffix (a ++ [58] ++ print id) = Ok (data, id).
+Proof. exact global_roundtrip. Qed.
+
+(* the corner, stated: with a ':' inside the suffix (hence inside the address text) the printed
+   global id never splits back into [address; local id] *)
+Theorem C28_globalid_colon_suffix_corner : forall s, In 58 s ->
+  forall t, split_colon (s ++ 58 :: t) <> [s; t].
+Proof. exact colon_suffix_breaks. Qed.
 
 Example C28_nonvacuous :
   encode_address [114;100;120] [193;1;2;3] = Ok
@@ -66,13 +125,22 @@ Example C28_nonvacuous :
     [97;99;99;111;117;110;116;95;114;100;120;49;99;121;113;115;121;113;99;112;118;107;102;55;106]
      = Ok (193, [193;1;2;3])
   /\ from_str [35;49;50;35] = Ok (LInteger 12) /\ from_str [35;48;49;50;35] = Err InvalidInteger
-  /\ from_str [91;65;98;93] = Ok (LBytes [171]).
-Proof. repeat split; vm_compute; reflexivity. Qed.
+  /\ from_str [91;65;98;93] = Ok (LBytes [171])
+  /\ valid_id (LInteger 18446744073709551615) /\ valid_id (LString [97;95;49])
+  /\ global_from_str [115;105;109] ([120;58] ++ print (LInteger 1)) = Err GInvalidResourceAddress.
+Proof. repeat split; vm_compute; try reflexivity; intuition discriminate. Qed.
 
 Print Assumptions C28_entity_table_wellformed.
+Print Assumptions C28_known_networks_wellformed.
 Print Assumptions C28_checksum_verifies.
+Print Assumptions C28_bits_roundtrip.
+Print Assumptions C28_address_roundtrip.
+Print Assumptions C28_encode_accepts.
 Print Assumptions C28_other_network_rejected.
 Print Assumptions C28_entity_mismatch_rejected.
 Print Assumptions C28_parse_total_address.
 Print Assumptions C28_parse_total_localid.
+Print Assumptions C28_localid_text_roundtrip.
 Print Assumptions C28_integer_canonical.
+Print Assumptions C28_globalid_text_roundtrip.
+Print Assumptions C28_globalid_colon_suffix_corner.
